@@ -101,6 +101,9 @@ Defs == [
   \* the same, the derived class keeping the very name of its base (class Text(m1.Text) in m2)
   X2  |-> [flavour |-> "dataclass",    module |-> "m2", py |-> "Text", base |-> "R2",
            fields |-> << <<"v", P("int"), FALSE>>, <<"nxt", Opt(Cls("R2")), TRUE>>, <<"note", Opt(P("date")), TRUE>> >>],
+  \* keys that are a Python keyword / no identifier (functional syntax)
+  TD10 |-> [flavour |-> "typeddict_fn", module |-> "m1", py |-> "TD10", fields |-> << <<"from", P("int"), FALSE>>, <<"content-type", P("str"), FALSE>>,
+              <<"to", P("date"), FALSE>> >>],
   \* a dataclass whose instances are falsy (a status object, an empty page: __bool__ / __len__ belong to the value, not to its type)
   F1  |-> [flavour |-> "dc_falsy",     module |-> "m1", py |-> "F1",  fields |-> << <<"n", P("int"), FALSE>>, <<"at", P("date"), FALSE>> >>],
   \* a dataclass whose instances can be called (a structured class like any other)
